@@ -38,11 +38,8 @@ theorem posAt_set (P : List Pos) (i c : Nat) (v : Pos) :
     posAt (P.set i v) c = if i = c ∧ i < P.length then v else posAt P c := by
   simp only [posAt, List.getD_eq_getElem?_getD, List.getElem?_set]
   by_cases h1 : i = c
-  · by_cases h2 : i < P.length
-    · simp [h1, h2]
-      intro h; omega
-    · subst h1
-      simp [h2]
+  · subst h1
+    by_cases h2 : i < P.length <;> simp [h2]
   · simp [h1]
 
 theorem writeRow_spec (rows : List Row) (cells : List LCell) (row : Nat) :
@@ -58,10 +55,12 @@ theorem writeRow_spec (rows : List Row) (cells : List LCell) (row : Nat) :
     · rw [posAt_set] at h
       by_cases hc : c0 = c ∧ c0 < P.length
       · rw [if_pos hc] at h
+        obtain ⟨rfl, _⟩ := hc
         right
-        refine ⟨by simp [hc.1], ?_⟩
-        simp only [WrittenBy, h, hc.1]
-        exact ⟨trivial, trivial, trivial⟩
+        refine ⟨by simp, ?_⟩
+        unfold WrittenBy
+        rw [h]
+        exact ⟨rfl, rfl, rfl⟩
       · rw [if_neg hc] at h
         exact Or.inl h
     · exact Or.inr ⟨by simp [h.1], h.2⟩
@@ -144,19 +143,19 @@ theorem abacusRun_check (rows : List Row) (cells : List LCell) (pos : List Pos)
         split at hck
         · simp at hck
         · rename_i ho
-          have hz' : zipAll (rowBoundsOk cells pos) (sortRows rows) a.rowCells = true := by
-            cases hq : zipAll (rowBoundsOk cells pos) (sortRows rows) a.rowCells
+          have hz' : zipAll (rowBoundsOk cells P) (sortRows rows) a.rowCells = true := by
+            cases hq : zipAll (rowBoundsOk cells P) (sortRows rows) a.rowCells
             · simp [hq] at hz
             · rfl
-          have ho' : a.rowCells.all (rowOrderOk cells pos) = true := by
-            cases hq : a.rowCells.all (rowOrderOk cells pos)
+          have ho' : a.rowCells.all (rowOrderOk cells P) = true := by
+            cases hq : a.rowCells.all (rowOrderOk cells P)
             · simp [hq] at ho
             · rfl
           have hb := zipAll_get _ _ _ hz' k r rc hr hrc
-          have hord : rowOrderOk cells pos rc = true := by
+          have hord : rowOrderOk cells P rc = true := by
             rw [List.all_eq_true] at ho'
             exact ho' rc (List.mem_of_getElem? hrc)
-          refine ⟨?_, rowOrderOk_pairwise cells pos rc hwd hord⟩
+          refine ⟨?_, rowOrderOk_pairwise cells P rc hwd hord⟩
           intro c hc
           simp only [rowBoundsOk, List.all_eq_true] at hb
           have := hb c hc
@@ -168,18 +167,18 @@ theorem pairwise_ne {α : Type} {R : α → α → Prop} : ∀ {l : List α}, l.
   | [], _, a, ha, _, _, _ => by simp at ha
   | x :: xs, h, a, ha, b, hb, hne => by
     rw [List.pairwise_cons] at h
-    rcases List.mem_cons.mp ha with rfl | ha
-    · rcases List.mem_cons.mp hb with rfl | hb
-      · exact absurd rfl hne
-      · exact Or.inl (h.1 b hb)
-    · rcases List.mem_cons.mp hb with rfl | hb
-      · exact Or.inr (h.1 a ha)
-      · exact pairwise_ne h.2 a ha b hb hne
+    rcases List.mem_cons.mp ha with ha' | ha'
+    · rcases List.mem_cons.mp hb with hb' | hb'
+      · exact absurd (ha'.trans hb'.symm) hne
+      · rw [ha']; exact Or.inl (h.1 b hb')
+    · rcases List.mem_cons.mp hb with hb' | hb'
+      · rw [hb']; exact Or.inr (h.1 a ha')
+      · exact pairwise_ne h.2 a ha' b hb' hne
 
 /-- **The Abacus pass is legal relative to its segments.**  Every cell that `AbacusLegalizer` marks
 placed sits on the bottom edge of one of the segments, inside it, with the orientation the segment
 prescribes; two different placed cells do not overlap. -/
-theorem abacusRun_ok (H : Int) (hH : 0 < H) (rows : List Row) (hok : RowsOK H rows) (cells : List LCell)
+theorem abacusRun_ok (H : Int) (rows : List Row) (hok : RowsOK H rows) (cells : List LCell)
     (hw : ∀ c ∈ cells, 0 < c.w) (ps : List Pos) (h : abacusRun rows cells = .ok ps) :
     (∀ c, (posAt ps c).placed = true →
       ∃ r ∈ rows, (posAt ps c).y = r.rect.minY ∧ r.rect.minX ≤ (posAt ps c).x ∧
